@@ -63,7 +63,15 @@ type deriver struct {
 	nerr        int
 	errEvent    map[int]int // error number -> index of the event that produced it
 	ifaces      map[int]ifaceVal
+	// probe mode (DeriveProbe): every AddVar marks the names of the variables added to the same scope
+	// before it as "possibly renamed since" (what AddVar can do to them: MoqParam, numbering)
+	probe     bool
+	scopeVars map[int][]*interp.Struct
 }
+
+// RenameMark is the token the probe derivation appends to a variable's name each time a later AddVar of
+// the same scope could have renamed it.
+const RenameMark = "ʳ"
 
 type varRec struct {
 	id       string
@@ -301,10 +309,21 @@ var Formatters = []string{"", "gofmt", "goimports", "noop", "unknown-value"}
 
 // Derive interprets (*Mocker).Mock for the model and returns every explored path.
 func Derive(prog *load.Program, model *Model, formatter string) ([]*Derived, error) {
+	return derive(prog, model, formatter, false)
+}
+
+// DeriveProbe interprets Mock once more with AddVar marking earlier names as possibly renamed; the paths
+// it returns carry only the obligation G-DATA/name-final: every copy of a variable's name that reaches the
+// template data is as current as the name the variable ends up with.
+func DeriveProbe(prog *load.Program, model *Model) ([]*Derived, error) {
+	return derive(prog, model, "", true)
+}
+
+func derive(prog *load.Program, model *Model, formatter string, probe bool) ([]*Derived, error) {
 	var out []*Derived
 	choices := interp.NewChoices(256)
 	for {
-		d := &deriver{prog: prog, model: model, vars: map[string]*varRec{}, scopes: map[*interp.Struct]int{}, imports: map[string]*interp.Struct{}}
+		d := &deriver{prog: prog, model: model, vars: map[string]*varRec{}, scopes: map[*interp.Struct]int{}, imports: map[string]*interp.Struct{}, probe: probe, scopeVars: map[int][]*interp.Struct{}}
 		d.m = interp.New(prog)
 		d.m.Choices = choices
 		InstallTypesModels(d.m, prog)
@@ -612,6 +631,14 @@ func (d *deriver) run(formatter string) (*Derived, error) {
 			return nil, &interp.ErrUndecided{Pos: pos, Msg: err.Error()}
 		}
 		s.Aux = map[string]interp.Value{"vr": vr, "rec": rec}
+		if d.probe {
+			for _, earlier := range d.scopeVars[rec.scope] {
+				if n, ok := earlier.Fields["Name"].(*interp.Sym); ok {
+					earlier.Fields["Name"] = interp.Concat(n, interp.Tok(RenameMark))
+				}
+			}
+			d.scopeVars[rec.scope] = append(d.scopeVars[rec.scope], s)
+		}
 		// the parts a Var embeds or holds by value know what the Var knows (methods may be declared there)
 		var share func(st *interp.Struct, depth int)
 		share = func(st *interp.Struct, depth int) {
@@ -821,8 +848,103 @@ func (d *deriver) run(formatter string) (*Derived, error) {
 	// a path on which every fallible operation succeeded must succeed: anything else is a refusal
 	// that depends on the input (names, shapes, flags) alone
 	dv.ob("G-MOCK/accepts", "no-input-dependent-refusal", !(dv.Failed && len(nonNil) == 0), "Mock returns an error although the lookups, the template execution, the formatter and the write all succeeded (conditions on this path: %s): some interfaces are refused under these options", d.m.Choices.Describe())
+	if d.probe {
+		dv.Obs = nil
+		d.nameFinal(dv)
+		return dv, nil
+	}
 	d.obligations(dv, formatter)
 	return dv, nil
+}
+
+// nameFinal (probe mode): wherever the name of a variable occurs in the template data outside the
+// variable itself, it carries as many rename marks as the variable's own name has at the end.
+func (d *deriver) nameFinal(dv *Derived) {
+	if dv.Data == nil || dv.Failed {
+		return
+	}
+	final := map[string]int{} // base token -> marks at the end
+	for _, vs := range d.scopeVars {
+		for _, v := range vs {
+			n, ok := v.Fields["Name"].(*interp.Sym)
+			if !ok || len(n.Parts) == 0 || n.Parts[0].Tok == "" {
+				continue
+			}
+			k := 0
+			for _, p := range n.Parts[1:] {
+				if p.Tok == RenameMark {
+					k++
+				}
+			}
+			final[n.Parts[0].Tok] = k
+		}
+	}
+	isVar := map[*interp.Struct]bool{}
+	for _, vs := range d.scopeVars {
+		for _, v := range vs {
+			isVar[v] = true
+		}
+	}
+	seen := map[interp.Value]bool{}
+	nstale, ncopies := 0, 0
+	var stale []string
+	var walk func(v interp.Value, path string, inVarName bool)
+	walk = func(v interp.Value, path string, inVarName bool) {
+		switch x := v.(type) {
+		case *interp.Sym:
+			if inVarName {
+				return
+			}
+			for i, p := range x.Parts {
+				want, isName := final[p.Tok]
+				if p.Tok == "" || !isName {
+					continue
+				}
+				ncopies++
+				k := 0
+				for _, q := range x.Parts[i+1:] {
+					if q.Tok != RenameMark {
+						break
+					}
+					k++
+				}
+				if k != want {
+					nstale++
+					if len(stale) < 4 {
+						stale = append(stale, fmt.Sprintf("%s holds %q", path, x.Flat()))
+					}
+				}
+			}
+		case *interp.Ptr:
+			if x.Elem != nil && !seen[x] {
+				seen[x] = true
+				walk(x.Elem, path, false)
+			}
+		case *interp.Struct:
+			if seen[x] {
+				return
+			}
+			seen[x] = true
+			names := make([]string, 0, len(x.Fields))
+			for f := range x.Fields {
+				names = append(names, f)
+			}
+			sort.Strings(names)
+			for _, f := range names {
+				walk(x.Fields[f], path+"."+f, isVar[x] && f == "Name")
+			}
+		case *interp.List:
+			if seen[x] {
+				return
+			}
+			seen[x] = true
+			for i, e := range x.Elems {
+				walk(e, fmt.Sprintf("%s[%d]", path, i), false)
+			}
+		}
+	}
+	walk(dv.Data, "Data", false)
+	dv.ob("G-DATA/name-final", "copies-are-current", nstale == 0, "a copy of a parameter or result name reaches the template data although a later AddVar of the same method could still rename that variable (a parameter spelled like a package a result brings in, or like a numbered result, gets MoqParam or a number afterwards): %d of %d copies are older than the variable's final name, e.g. %s — the signature then spells the new name and the copied text the old one", nstale, ncopies, strings.Join(stale, "; "))
 }
 
 // calleeOfField finds the moq function whose result initialises the given
